@@ -289,7 +289,9 @@ def wrap_card(line, width=78):
     """split a long card into continuation lines (5 leading blanks)"""
     if len(line) <= width:
         return line
-    words = line.split(' ')
+    words = [w for w in line.rstrip().split(' ')]
+    while words and words[-1] == '':
+        words.pop()
     lines = []
     cur = ''
     for w in words:
@@ -318,7 +320,7 @@ def render_deck(d, lay=None, imp_on_cards=None):
     for num, (m, sp) in d.trs.items():
         out.append(wrap_card(tr_card(num, m, sp.get('star', False)) if 'raw' not in sp else sp['raw']))
     for num, comp in d.mats.items():
-        out.append(wrap_card('m%d %s' % (num, ' '.join('%s %s' % (z, f) for z, f in comp))))
+        out.append(wrap_card('m%d %s' % (num, ' '.join(('%s %s' % (z, f)).strip() for z, f in comp))))
     if d.imp_cards:
         for part, toks in d.imp_cards.items():
             out.append(wrap_card('imp:%s %s' % (part, ' '.join(toks))))
